@@ -52,7 +52,11 @@ def run(report, tier, seed):
                          ndjson=True, want_cpp=False).prepare()
         # fields that can be null in every way a type can say so (aliases, alias chains, generic arguments, named unions), in C++ and Python
         nl = codeclab.Lab(sc, ybin, 1001, modelgen.Gen(seed * 100103 + 1001, json_safe=True, cpp_json_safe=True), pkg=modelgen.nullable_package(), ndjson=True).prepare()
-        for lab in labs + pylabs + [d, nl]:
+        # untagged unions: every ordered pair of cases whose JSON types differ (the reader tells the case from the JSON type alone)
+        ut = codeclab.Lab(sc, ybin, 1002, modelgen.Gen(seed * 100103 + 1002, json_safe=True, cpp_json_safe=True), pkg=modelgen.untagged_unions_package(small=quick),
+                          ndjson=True).prepare()
+        ut.min_stream_items = 6
+        for lab in labs + pylabs + [d, nl, ut]:
             if not lab.ok:
                 report.violation(f"{lab.stage}:model", {"seed": seed, "model_index": lab.idx, "error": lab.err, "files": _files(lab)}, "")
                 continue
@@ -72,7 +76,7 @@ def exercise(report, lab, lean, n_sets, seed, prop, langs=None):
             for i, s in enumerate(pj):
                 if s["stream"]:
                     items = []
-                    for q in range(g.rng.choice([0, 1, 2, 3, 5])):
+                    for q in range(max(getattr(lab, "min_stream_items", 0), g.rng.choice([0, 1, 2, 3, 5]))):
                         v = g.gen_value(s["ty"], 3)
                         if q % 2 == 1:
                             v = modelgen.shrink_value(s["ty"], v)
